@@ -51,7 +51,9 @@
      * Pin-indexed parameters (linPowByPin, ...) are attached to pin m wherever it sits; they are not part of the
        statement and are not modelled.
      * orientation is compared as an angle (mod 360).
-     * A block without a spatial grid has only default children (free point at the origin / no locator).
+     * A block without a spatial grid has only default children (free point at the origin / no locator).  A child
+       without locator inside a block WITH a grid is not modelled: armi cannot even copy such a block
+       (Composite.__setstate__ calls spatialLocator.associate on every child).
 *)
 EXTENDS SymLattice, TLC, Json
 
@@ -59,6 +61,7 @@ CONSTANTS K,           \* rotations by k in -K..K sixty-degree steps
           H,           \* refused requests of h*30 degrees, h odd, |h| <= H
           NB,          \* blocks per assembly
           Layouts,     \* layouts the first block is drawn from (the others follow cyclically, see CfgOfBlock)
+          TieDi,       \* FALSE: every displacement / special-value variant di for every layout; TRUE: one per layout
           MaxLevel
 
 VARIABLES blocks, tot, err, act, prev
@@ -73,9 +76,14 @@ Index(cl, cc) == [t |-> "index", clad |-> cl, cells |-> <<cc>>, xyz |-> <<>>]
 Coord(p)      == [t |-> "coord", clad |-> FALSE, cells |-> <<>>, xyz |-> p]
 NoLoc         == [t |-> "none", clad |-> FALSE, cells |-> <<>>, xyz |-> <<>>]
 
-SmallCells == {cc \in (-2..2) \X (-2..2) : SymDist(cc) <= 2}
-\* the first n rings in ring / position order (HexBlock.autoCreateSpatialGrids)
-RingCells(n) == [m \in 1..TotalUpToRing(n) |-> CHOOSE d \in SmallCells : CellNum(d) = m]
+\* the first three rings in ring / position order (HexBlock.autoCreateSpatialGrids fills pins in this order); written
+\* out once (TLC would otherwise recompute the lookup in every state) and checked against the numbering
+Ring3Cells == << <<0, 0>>,
+                 <<1, 0>>, <<0, 1>>, <<-1, 1>>, <<-1, 0>>, <<0, -1>>, <<1, -1>>,
+                 <<2, 0>>, <<1, 1>>, <<0, 2>>, <<-1, 2>>, <<-2, 2>>, <<-2, 1>>, <<-2, 0>>, <<-1, -1>>, <<0, -2>>,
+                 <<1, -2>>, <<2, -2>>, <<2, -1>> >>
+ASSUME Len(Ring3Cells) = TotalUpToRing(3) /\ \A m \in 1..Len(Ring3Cells) : CellNum(Ring3Cells[m]) = m
+RingCells(n) == SubSeq(Ring3Cells, 1, TotalUpToRing(n))
 \* children of a pin block made by autoCreateSpatialGrids from (fuel, clad, wire, coolant, duct)
 PinBlock(n) == <<Multi(FALSE, RingCells(n)), Multi(TRUE, RingCells(n)), Multi(FALSE, RingCells(n)),
                  Coord(<<0, 0, 0>>), Coord(<<0, 0, 0>>)>>
@@ -86,7 +94,7 @@ Kids(lay) ==
       [] lay = "singles" -> <<Index(TRUE, <<1, 0>>), Index(TRUE, <<-1, 2>>), Index(TRUE, <<2, -1>>),
                               Index(FALSE, <<0, -2>>), Coord(<<1, 1, 1>>)>>
       [] lay = "mixed"   -> <<Multi(TRUE, << <<1, 0>>, <<2, 0>>, <<0, 1>>, <<-2, 1>> >>), Index(TRUE, <<1, 1>>),
-                              Index(FALSE, <<0, 0>>), Coord(<<-3, 1, 0>>), Coord(<<4, -2, 1>>), NoLoc>>
+                              Index(FALSE, <<0, 0>>), Coord(<<-3, 1, 0>>), Coord(<<4, -2, 1>>)>>
       [] lay = "nogrid"  -> <<Coord(<<0, 0, 0>>), NoLoc, Coord(<<0, 0, 0>>)>>
 
 DispOf(di) == << <<2, 0>>, <<3, -1>>, <<>>, <<-1, 3>> >>[di]
@@ -107,7 +115,10 @@ CfgOfBlock(cf, b) == IF b = 1 THEN cf
                      ELSE [o   |-> IF (b % 2 = 0) = (cf.o = "flat") THEN "corner" ELSE "flat",
                            lay |-> LayoutSeq[((LayIdx(cf.lay) + b - 2) % Len(LayoutSeq)) + 1],
                            di  |-> ((cf.di + b - 2) % NDisp) + 1]
-CfgSet == [o : Orients, lay : Layouts, di : 1..NDisp]
+\* all 2 x |Layouts| x 4 configurations, or (TieDi) one di per (orientation, layout) so that di still takes every value
+TiedDi(oo, lay) == ((LayIdx(lay) + (IF oo = "flat" THEN 0 ELSE 1)) % NDisp) + 1
+CfgSet == IF TieDi THEN {[o |-> oo, lay |-> l, di |-> TiedDi(oo, l)] : oo \in Orients, l \in Layouts}
+          ELSE [o : Orients, lay : Layouts, di : 1..NDisp]
 
 (* ----------------------------------------------- rotation ----------------------------------------------- *)
 IsSix(val) == val.kind = "vec" /\ Len(val.v) = 6               \* "a list or array of length 6"
